@@ -2,7 +2,7 @@
    (pcapgo/ngwrite*.go) was given; a truncated file gives a true prefix.
    Property theorems only; proofs in Proofs/NgExec.v, NgRoundtrip.v (one packet block), NgFile.v (whole
    files), NgPrefix.v and NgPrefixFile.v (truncation). *)
-From GP Require Import Base NgModel NgIoProofs NgWp NgSafeProofs NgExec NgRoundtrip NgFile NgPrefix NgPrefixFile NgFuel NgPrefixOwn NgUnmixed.
+From GP Require Import Base NgModel NgIoProofs NgWp NgSafeProofs NgExec NgRoundtrip NgFile NgPrefix NgPrefixFile NgFuel NgPrefixOwn NgUnmixed NgFull.
 Open Scope Z_scope.
 
 Definition new_class (r : Z * list pkt * Z * rst) : Z := fst (fst (fst r)).
@@ -11,14 +11,7 @@ Definition packets (r : Z * list pkt * Z * rst) : list pkt := snd (fst (fst r)).
 
 (* ------------------------------------------------------------------ full statements *)
 (* what a script asks the writer to store, as the reader reports it *)
-Definition expected_pkt (links : list Z) (op : wop) : list pkt :=
-  match op with
-  | WPacket ifid ts caplen len data o =>
-    [mkPkt (mkCi ifid (ts / E9, ts mod E9) caplen len) (nth (Z.to_nat ifid) links 0) data o]
-  | _ => []
-  end.
-Definition links_of (i0 : wiface) (ops : list wop) : list Z :=
-  wi_link i0 :: flat_map (fun op => match op with WAddIf i => [wi_link i] | _ => [] end) ops.
+(* expected_pkt, links_of, snaps_of, op_pre: see Proofs/NgFull.v *)
 (* preconditions: exactly what the writer enforces, plus what the format can represent *)
 (* str_ok, wif_ok, sec_ok: see Proofs/NgFile.v *)
 
@@ -306,3 +299,73 @@ Example C14_ng_unmixed_sample :
   (packets r, end_class r) = exp_unmixed true (wi_link sample_i0) [sample_i0] sample_ops /\ end_class r = 3 /\ length (packets r) = 1%nat.
 Proof. vm_compute. repeat split; reflexivity. Qed.
 
+
+(* ------------------------------------------------------------------ the literal full statement *)
+(* C14_ng_roundtrip_statement as first written lacks one hypothesis the repaired reader needs:
+   capture length <= snap length of the packet's interface (when that is not 0).  The writer
+   accepts such a packet, the reader refuses it (check added by the repair, as in classic pcap), so
+   the statement as literally written is false; witness: snap length 2, a 4-byte packet. *)
+Theorem C14_ng_roundtrip_statement_as_written_refuted : ~ C14_ng_roundtrip_statement.
+Proof.
+  intros H.
+  specialize (H (mkRo true false false false) (mkSec [] [] [] []) (mkWif [] [] [] [] [] 1 9 0 2)
+                [WPacket 0 1000 4 4 [1;2;3;4] empty_popts] eq_refl).
+  assert (end_class (write_cut_read (mkRo true false false false) (mkSec [] [] [] []) (mkWif [] [] [] [] [] 1 9 0 2)
+                       [WPacket 0 1000 4 4 [1;2;3;4] empty_popts]
+                       (length (write_file (mkSec [] [] [] []) (mkWif [] [] [] [] [] 1 9 0 2) [WPacket 0 1000 4 4 [1;2;3;4] empty_popts]))) = 3) as E
+    by (vm_compute; reflexivity).
+  cbv zeta in H. rewrite E in H.
+  assert (3 = 1) as X; [|discriminate].
+  apply H.
+  - unfold sec_ok, str_ok; cbn; unfold zlen; cbn; lia.
+  - unfold wif_ok, str_ok; cbn; unfold zlen; cbn; lia.
+  - constructor; [|constructor]. split; [lia|]. split; [reflexivity|]. split; [unfold zlen; cbn; lia|].
+    split; [|vm_compute; reflexivity].
+    unfold wf_popts, empty_popts; cbn. repeat split; auto; constructor.
+  - vm_compute. repeat constructor.
+Qed.
+Print Assumptions C14_ng_roundtrip_statement_as_written_refuted.
+
+(* With that hypothesis the statement is C14_ng_roundtrip_file_partial, whose precondition ops_ok
+   is the per-call form of the hypotheses above plus caplen <= snap length, and which also allows
+   WriteInterfaceStats and WriteDecryptionSecretsBlock calls; C14_ng_roundtrip_file_unmixed_partial
+   is its WantMixedLinkType = false counterpart.  What remains open for the C14 pcapng statement:
+   if_tsoffset <> 0 (refuted: C14_ng_roundtrip_tsoffset_refuted, known finding), the prefix
+   theorems for WantMixedLinkType = false, and option values / data of 2^16 / 2^32 bytes and
+   beyond (outside what the format can represent). *)
+
+(* ------------------------------------------------------------------ the full statement, proved *)
+(* C14_ng_roundtrip at full strength, with the snap length hypothesis made explicit and every
+   writer call allowed: for every section description, first interface and script of AddInterface,
+   WritePacketWithOptions, WriteInterfaceStats and WriteDecryptionSecretsBlock calls that the writer
+   ACCEPTED (write_blocks flags), where each call satisfies [op_pre] - interface descriptions with
+   strings below 2^16 bytes and if_tsoffset 0; packets with timestamp in [0, 2^63) ns,
+   caplen = |data| <= len < 2^32, option values below 2^16 bytes, caplen <= snap length of the
+   interface (when not 0); secrets below 2^32 bytes - the reader (all link types wanted, copying or
+   zero-copy) returns exactly the packets of the script with their interface, timestamp, lengths,
+   data, options and link type, then io.EOF. *)
+Theorem C14_ng_roundtrip : forall ro sec i0 ops,
+  ro_mixed ro = true -> sec_ok sec -> wif_ok i0 -> zlen ops < 4294967290 ->
+  Forall (op_pre (snaps_of i0 ops)) ops ->
+  Forall (fun r => snd r = true) (write_blocks sec i0 ops) ->
+  let r := write_cut_read ro sec i0 ops (length (write_file sec i0 ops)) in
+  new_class r = 0 /\ end_class r = 1 /\ packets r = flat_map (expected_pkt (links_of i0 ops)) ops.
+Proof. exact roundtrip_full. Qed.
+Print Assumptions C14_ng_roundtrip.
+
+(* the call-by-call hypotheses give ops_ok, and exp_pkts is the flat_map form *)
+Theorem C14_ng_hypotheses_bridge : forall ops ws, zlen ws + zlen ops < 4294967296 ->
+  Forall (op_pre (map wi_snap ws ++ snaps_from ops)) ops ->
+  Forall (fun r => snd r = true) (wrun (zlen ws) ops) ->
+  ops_ok ws ops /\ exp_pkts ws ops = flat_map (expected_pkt (map wi_link ws ++ links_from ops)) ops.
+Proof. exact bridge. Qed.
+Print Assumptions C14_ng_hypotheses_bridge.
+
+(* non-vacuity: the sample script satisfies the hypotheses of C14_ng_roundtrip *)
+Example C14_ng_roundtrip_nonvacuous :
+  Forall (fun r => snd r = true) (write_blocks sample_sec sample_i0 sample_ops) /\ wif_ok sample_i0 /\ sec_ok sample_sec
+  /\ nth 1 (snaps_of sample_i0 sample_ops) 5 = 0 /\ nth 0 (snaps_of sample_i0 sample_ops) 5 = 96.
+Proof.
+  split; [vm_compute; repeat constructor|]. split; [unfold wif_ok, str_ok, sample_i0; cbn; unfold zlen; cbn; lia|].
+  split; [unfold sec_ok, str_ok, sample_sec; cbn; unfold zlen; cbn; lia|]. split; reflexivity.
+Qed.
